@@ -355,3 +355,9 @@ func ParseArgs() *Args {
 	InitQuietLog(a.Scratch)
 	return a
 }
+
+// Sum8 is a short content fingerprint (first 8 bytes of SHA-256) for canonical dumps of large values.
+func Sum8(b []byte) []byte {
+	h := sha256.Sum256(b)
+	return h[:8]
+}
